@@ -414,6 +414,11 @@ func (s *routerSession) hdr(hid int, fs []string) string {
 }
 
 func parseHdrFields(fs []string) http.Header {
+	if len(fs) == 0 {
+		// a request without any header field: the zero value of http.Request.Header, the nil map (what a hand-built or
+		// in-process request carries) — an empty header set like any other
+		return nil
+	}
 	h := http.Header{}
 	for _, f := range fs {
 		kv := strings.SplitN(f, "=", 2)
